@@ -41,6 +41,8 @@ def valid_hashes(name, h):
         variants.append(dict(kw, ident=ident))
     if "salt_size" in h.setting_kwds and getattr(w, "min_salt_size", None) is not None and w.min_salt_size != w.default_salt_size:
         variants.append(dict(kw, salt_size=w.min_salt_size))
+    if name == "cisco_type7":             # the offset field at both ends of its range
+        variants = [dict(kw, salt=0), dict(kw, salt=52), kw]
     for v in variants:
         try:
             s = h.using(**v).hash(PW, **ctx)
@@ -83,9 +85,17 @@ def mutants(s, name, rnd, quick):
             n = int(m.group())
             for big in (2 ** 31 - 1, 2 ** 31, 2 ** 32 - 1, 2 ** 32):           # around what C integer types can hold
                 yield "huge-number", s[:m.start()] + str(big) + s[m.end():]
+            if len(m.group()) == 2 and n < 100:         # a two-digit field: every other value
+                for alt in range(100):
+                    if alt != n:
+                        yield "other-number", s[:m.start()] + "%02d" % alt + s[m.end():]
             for alt in {n - 1, n + 1, n // 10, 1, 0} - {n}:
                 if alt >= 0:
                     yield "other-number", s[:m.start()] + str(alt) + s[m.end():]
+    if name == "cisco_type7" and len(s) >= 2 and s[:2].isdigit():      # a leading two-digit offset, directly followed by hex digits
+        for alt in range(100):
+            if "%02d" % alt != s[:2]:
+                yield "other-number", "%02d" % alt + s[2:]
     # name=value pairs: the name or the value blanked
     for m in re.finditer(r"([A-Za-z][A-Za-z0-9-]*)=([^,$|}]+)", s):
         yield "empty-name", s[:m.start(1)] + s[m.end(1):]
